@@ -1,5 +1,5 @@
-CONSTANTS D = 4  NStates = {1, 2, 3, 5, 7}  Shapes = {0, 1, 3, 4}  Salts = {0, 1, 2}  Stages = {0, 1, 2}  WinSets = {1, 2, 3, 4}
-  MaxLabels = 3  LabelIdx = {1, 2, 7}  CondIdx = {1, 2, 3, 4, 5, 6, 7, 8}
+CONSTANTS D = 4  NStates = {1, 2, 3, 7}  Shapes = {0, 3}  Salts = {0, 1}  Stages = {0, 1, 2}  WinSets = {1, 2, 3, 4, 5}
+  MaxUttStates = 14  MaxLabels = 2  LabelIdx = {1, 2, 7}  CondIdx = {1, 2, 3, 4, 5, 6, 7, 8}
 SPECIFICATION Spec
 INVARIANTS Emit EmitVoice
 CHECK_DEADLOCK FALSE
